@@ -392,6 +392,33 @@ def check_pool(ctx, cg, reach):
     ctx.floor(R, n, 1)
 
 
+def check_single_file(ctx):
+    R = "C13-ONEFILE"
+    ctx.rule(R, "JokerSamples.write creates exactly the file it is asked to write: the `output` parameter reaches write_table_hdf5 / Table.write unchanged and the method neither "
+                "renames, moves nor copies files (the temp-file wrapper removes only the name it created; a side file such as `<name>.part` left by a failing write would "
+                "never be cleaned up).")
+    wf = ctx.prog.func("thejoker.samples", "JokerSamples.write", R)
+    fl = A.Flow(wf)
+    n = 0
+    for c in A.calls_in(wf):
+        nm = A.call_name(c) or ""
+        if nm == "write_table_hdf5":
+            tgt = A.get_arg(c, 1, "output")
+        elif A.last_attr(c) == "write" and c.args and not nm.startswith(("self.", "logger.")):
+            tgt = c.args[0]
+        else:
+            tgt = None
+        if tgt is not None:
+            n += 1
+            r = fl.resolve(tgt, at=A.enclosing_stmt(c))
+            leaves = {canon(x) for x in A.strip_ifexp(r)}
+            ctx.check(R, c, "`%s(...)` writes to the file name it was given" % (nm or A.last_attr(c)), leaves == {"output"},
+                      "writes to `%s`, not to the `output` argument itself" % sorted(leaves), key="target:" + (nm or A.last_attr(c)))
+        if nm in ("os.replace", "os.rename", "shutil.move", "shutil.copy", "shutil.copyfile", "shutil.copy2", "os.link", "os.symlink"):
+            ctx.violate(R, c, "no file is renamed / moved / copied", "`%s`: a second file name is involved in writing the samples" % A.unparse(c)[:70], key="move:" + nm)
+    ctx.floor(R, n, 2)
+
+
 PICKLE_FIXTURE = """
 class BadErr(RuntimeError):
     def __init__(self, filename, err):
@@ -498,6 +525,7 @@ def run(ctx):
     check_state(ctx)
     check_pool(ctx, cg, reach)
     check_pickle(ctx)
+    check_single_file(ctx)
     ctx.notes.append({"call_sites_resolved": cg.resolved, "call_sites_external": cg.external})
     ctx.assume("tables.open_file(mode='r') and h5py.File(mode='r') never modify the file; os.unlink removes it")
     ctx.assume("exceptions raised inside pool workers are re-raised by pool.map in the parent (schwimmbad / multiprocessing contract)")
